@@ -4,7 +4,7 @@
    Numbers are Q (equality is Qeq, written ==).  Float arithmetic is idealised
    as exact; a float literal of the source (0.3048, 0.000147, 0.0049, 0.00001,
    0.004, 0.1) is read as the decimal fraction that is written there. *)
-From Coq Require Import QArith List Bool.
+From Coq Require Import QArith List Bool PeanoNat.
 Import ListNotations.
 Open Scope Q_scope.
 
@@ -187,27 +187,60 @@ Definition table_inverse (T : ltable) : bool :=
                     end) T.
 
 (* ------------------------------------------------------------------ *)
-(* xl_max_sonar_ez.py *)
+(* The literals of the sensor drivers.  Like the unit table they are
+   REGENERATED on every run (work/C18/Gen_sensors.v, read from the source of
+   the two files with Python's ast); the functions below take them as a
+   record, [doc_consts] holds the documented values and [consts_ok] is the
+   decidable check that a regenerated record means the same. *)
+
+Record sconsts := {
+  (* MaxSonarEZPulseWidth.get():  convert(units.<c_pw_unit>, out, period / c_pw_div) *)
+  c_pw_unit : nat;  c_pw_div : Q;
+  (* MaxSonarEZAnalog.get():      convert(units.<c_an_unit>, out, voltage / c_an_div) *)
+  c_an_unit : nat;  c_an_div : Q;
+  (* pressure:  v = max(volts, c_floor);  c_scale * (v / Vcc) - c_offset;
+     except ZeroDivisionError: return c_zero *)
+  c_scale : Q;  c_offset : Q;  c_floor : Q;  c_zero : Q;
+  (* calibrate: Vo = max(volts, c_cal_floor);  Vn = Vo / (c_cal_slope * p + c_cal_off) *)
+  c_cal_floor : Q;  c_cal_slope : Q;  c_cal_off : Q }.
 
 Definition us147 : Q := 147 # 1000000.     (* 0.000147 s per inch *)
 Definition mv4_9 : Q := 49 # 10000.        (* 0.0049 V per centimetre *)
+Definition v_floor : Q := 1 # 100000.      (* 0.00001 V *)
+
+Definition doc_consts : sconsts :=
+  {| c_pw_unit := u_inch;        c_pw_div := us147;
+     c_an_unit := u_centimeter;  c_an_div := mv4_9;
+     c_scale := 250;  c_offset := 25;  c_floor := v_floor;  c_zero := 0;
+     c_cal_floor := v_floor;  c_cal_slope := 4 # 1000;  c_cal_off := 1 # 10 |}.
+
+Definition consts_ok (K : sconsts) : bool :=
+  Nat.eqb (c_pw_unit K) u_inch && Qeq_bool (c_pw_div K) us147 &&
+  Nat.eqb (c_an_unit K) u_centimeter && Qeq_bool (c_an_div K) mv4_9 &&
+  Qeq_bool (c_scale K) 250 && Qeq_bool (c_offset K) 25 &&
+  Qeq_bool (c_floor K) v_floor && Qeq_bool (c_zero K) 0 &&
+  Qeq_bool (c_cal_floor K) v_floor &&
+  Qeq_bool (c_cal_slope K) (4 # 1000) && Qeq_bool (c_cal_off K) (1 # 10).
+
+(* ------------------------------------------------------------------ *)
+(* xl_max_sonar_ez.py *)
 
 (* MaxSonarEZPulseWidth.get():
      inches = self.counter.getPeriod() / 0.000147
      return units.convert(units.inch, self.output_units, inches) *)
-Definition sonar_pw (tbl : list (option nat * link)) (out : nat) (period : Q) : outcome Q :=
-  convert_tbl tbl u_inch out (period / us147).
+Definition sonar_pw (K : sconsts) (tbl : list (option nat * link)) (out : nat) (period : Q)
+  : outcome Q :=
+  convert_tbl tbl (c_pw_unit K) out (period / c_pw_div K).
 
 (* MaxSonarEZAnalog.get():
      centimeters = self.analog.getVoltage() / 0.0049
      return units.convert(units.centimeter, self.output_units, centimeters) *)
-Definition sonar_an (tbl : list (option nat * link)) (out : nat) (v : Q) : outcome Q :=
-  convert_tbl tbl u_centimeter out (v / mv4_9).
+Definition sonar_an (K : sconsts) (tbl : list (option nat * link)) (out : nat) (v : Q)
+  : outcome Q :=
+  convert_tbl tbl (c_an_unit K) out (v / c_an_div K).
 
 (* ------------------------------------------------------------------ *)
 (* pressure_sensors.py *)
-
-Definition v_floor : Q := 1 # 100000.      (* 0.00001 V *)
 
 Definition Qltb (a b : Q) : bool := negb (Qle_bool b a).
 
@@ -228,25 +261,25 @@ Definition supply (s : sensor) : Q :=
   match vn s with Some n => n | None => voltage_in s end.
 
 (* the body of the try: *)
-Definition pressure_try (s : sensor) (volts : Q) : outcome Q :=
-  let v := pymax volts v_floor in
+Definition pressure_try (K : sconsts) (s : sensor) (volts : Q) : outcome Q :=
+  let v := pymax volts (c_floor K) in
   match pydiv v (supply s) with
-  | Val q => Val (250 * q - 25)
+  | Val q => Val (c_scale K * q - c_offset K)
   | Raise e => Raise e
   | Loops => Loops
   end.
 
 (* REVAnalogPressureSensor.pressure, [volts] = sensor.getAverageVoltage() *)
-Definition pressure (s : sensor) (volts : Q) : outcome Q :=
-  match pressure_try s volts with
-  | Raise ZeroDivisionError => Val 0          (* except ZeroDivisionError: return 0 *)
+Definition pressure (K : sconsts) (s : sensor) (volts : Q) : outcome Q :=
+  match pressure_try K s volts with
+  | Raise ZeroDivisionError => Val (c_zero K)    (* except ZeroDivisionError: return 0 *)
   | r => r
   end.
 
 (* REVAnalogPressureSensor.calibrate(known_pressure); no try here *)
-Definition calibrate (s : sensor) (volts p : Q) : outcome sensor :=
-  let vo := pymax volts v_floor in
-  match pydiv vo ((4 # 1000) * p + (1 # 10)) with
+Definition calibrate (K : sconsts) (s : sensor) (volts p : Q) : outcome sensor :=
+  let vo := pymax volts (c_cal_floor K) in
+  match pydiv vo (c_cal_slope K * p + c_cal_off K) with
   | Val n => Val {| voltage_in := voltage_in s; vn := Some n |}
   | Raise e => Raise e
   | Loops => Loops
